@@ -9,7 +9,7 @@ Everything is served by the real `AppRunner(app).server()` protocol over an in-m
 file system is a real temporary tree (fresh `tempfile.mkdtemp`, removed afterwards).
 """
 import asyncio, email.utils, inspect, itertools, os, re, shutil, stat as statmod, sys, tempfile
-from .common.codec import hx, st, b01
+from .common.codec import hx, st, b01, unhx
 from .common.guard import MachineryError
 from .common import vloop
 
@@ -54,6 +54,8 @@ RULE = ("(1) FileResponse over real files of sizes 0..6 (+ one 70-byte file) thr
         "list of length 1..3 over {strong,weak} x {current,other} in both headers x GET/HEAD x with/without Range; dates "
         "mtime-1/mtime/mtime+1/garbage with mtime at .0 and .5 s; If-Range: dates and entity tags), exhaustive product in the "
         "thorough tier. BaseRequest.http_range additionally on a string grammar incl. trailing newline. "
+        "(1a) a deterministic set (sizes 0, 6, 70000; ranges around both ends and 65536) served over a real loopback socket with sendfile "
+        "enabled, so that the offset/count handed to loop.sendfile / aiofastnet.sendfile is exercised (guard: the call must be reached). "
         "(1b) the same FileResponse while the file changes between its stat() and its open() (hook on pathlib.Path.open): in-place "
         "rewrite to larger / smaller / empty / same size, atomic rename-replace to larger / smaller / same size, deletion x sizes "
         "{0,1,4,6,10} x 13 range specs x GET/HEAD; old and new contents use disjoint byte alphabets so the served version is identifiable. "
@@ -63,6 +65,8 @@ RULE = ("(1) FileResponse over real files of sizes 0..6 (+ one 70-byte file) thr
         "//, absolute and drive/UNC forms, non-normalised prefixes) x (follow_symlinks, show_index) x 2 prefixes x "
         "Accept-Encoding; pre-compressed sibling names occupied by every file type (regular, link to file / directory / FIFO / outside, "
         "directory, socket, FIFO - writer ends held open so a wrong open() cannot block -, missing) x every Accept-Encoding. "
+        "(2a) add_static end to end with Range x HEAD/GET x Accept-Encoding on files with regular / non-regular / no siblings: every "
+        "Content-Range, Content-Length, ETag, Last-Modified refers to the entity the route selected; HEAD announces what GET delivers. "
         "(2b) file-system HISTORIES on one app / one StaticResource: request, change the tree (file -> link outside, missing -> link outside, "
         "directory -> directory link outside, link outside -> file, link inside <-> link outside, loop -> link outside, content rewritten / "
         "deleted / recreated, sibling becomes directory / FIFO / socket / regular / link outside, file <-> directory, parent replaced by a "
@@ -202,8 +206,10 @@ async def ask(runner, raw):
             break
         await asyncio.sleep(0)
     else:
+        # the server neither finished nor closed within the budget: hand back what arrived - the oracles judge a
+        # response whose announced length never arrives (an outcome with a replay, not a harness crash)
         tr.close(); await asyncio.sleep(0)
-        raise MachineryError(f"no complete response for {raw[:120]!r}: {bytes(tr.out)[:120]!r}")
+        return bytes(tr.out)
     await asyncio.sleep(0)
     return bytes(tr.out)
 
@@ -441,8 +447,9 @@ def canon_file_response(status, hdrs, body):
     return "%d %s %s %s" % (status, crs, hdrs.get("content-length", "none"), hx(body))
 
 
-def oracle_file(ctx, case, content, sem, resp):
-    """The property on the real response alone. `sem`: semantic truth of each conditional (None = absent)."""
+def oracle_file(ctx, case, content, sem, resp, mtime_ns=None):
+    """The property on the real response alone. `sem`: semantic truth of each conditional (None = absent).
+    `mtime_ns` (when known): modification time of the served version - the validators must describe that version too."""
     status, hdrs, body = resp
     size = len(content); head = case["method"] == "HEAD"
     rng = dict(case["headers"]).get("Range")
@@ -451,6 +458,16 @@ def oracle_file(ctx, case, content, sem, resp):
     def bad(sig, detail):
         ctx.violation("C15/" + sig, case, detail + f" [status={status} content-range={cr!r} content-length={cl!r} body={body[:16]!r} size={size}]")
 
+    # --- the validators describe the same version as the body (a cache keyed on them must not mix versions)
+    if mtime_ns is not None and status in (200, 206, 304):
+        exp_etag = '"%x-%x"' % (mtime_ns, size)
+        if hdrs.get("etag") != exp_etag:
+            bad("consistency/etag-not-of-served-version", f"ETag {hdrs.get('etag')!r}, the served file has {exp_etag}")
+        exp_lm = httpdate(mtime_ns // 10**9)          # whole seconds: round down or up
+        if hdrs.get("last-modified") not in (exp_lm, httpdate(-(-mtime_ns // 10**9))):
+            bad("consistency/last-modified-not-of-served-version", f"Last-Modified {hdrs.get('last-modified')!r}, the served file has {exp_lm!r}")
+    if status in (200, 206) and hdrs.get("accept-ranges") != "bytes":
+        bad("consistency/accept-ranges-missing", "a range-capable response without `Accept-Ranges: bytes`")
     # --- internal consistency of whatever was answered
     if status == 200:
         if cr is not None: bad("consistency/200-with-content-range", "200 carries Content-Range")
@@ -494,6 +511,11 @@ def oracle_file(ctx, case, content, sem, resp):
                     bad("if-range/stale-date-served-206", "If-Range date does not match, Range must be ignored")
                 else:
                     bad("if-range/etag-validator-ignored", "If-Range carries an entity tag that does not match (or is weak); the Range must be ignored and 200 sent")
+                    # the known defect is exactly "an entity-tag If-Range is treated as absent": anything beyond that
+                    # (a wrong slice, a wrong 416) must still be reported under its own signature
+                    if rng is not None:
+                        oracle_file(ctx, {**case, "kinds": {k: v for k, v in case.get("kinds", {}).items() if k != "ir"}}, content,
+                                    {**sem, "ir": None}, resp, mtime_ns)
             else:
                 bad("range/unrequested-%d" % status, "no applicable Range header but not 200")
         return
@@ -614,6 +636,14 @@ def gen_file_cases(ctx):
                     if ctx.quick and len(lst) == 3 and (k + (method == "HEAD") + (rh is None)) % 2:
                         continue
                     cases.append(mk(4, k % 2, 3, method, rh, {hdr: kind}))
+    # (c1) deterministic on every seed: each conditional absent / passing / failing (3^4), and every If-Range kind x range shape
+    P = {"im": (None, "cur", "other"), "inm": (None, "other", "cur"), "um": (None, "after", "before"), "ms": (None, "before", "same")}
+    for k, (im, inm, um, ms) in enumerate(itertools.product(P["im"], P["inm"], P["um"], P["ms"])):
+        cases.append(mk(4, k % 2, 3, "HEAD" if k % 5 == 4 else "GET", (None, "bytes=1-2", "bytes=-2")[k % 3], {"im": im, "inm": inm, "um": um, "ms": ms}))
+    for ir in KINDS_IR[1:]:
+        for rh in ("bytes=1-2", "bytes=-2", "bytes=9-", "bytes=x", None):
+            for half in (0, 1):
+                cases.append(mk(4, half, 2, "GET", rh, {"ir": ir}))
     # (c) conditional combinations
     few_ranges = [None, "bytes=1-2", "bytes=-2", "bytes=9-", "bytes=-0", "bytes=x"]
     if ctx.quick:
@@ -686,11 +716,95 @@ def check_files(ctx):
                 ctx.hit("range:" + ("malformed" if sp is None else sp[0] + ("-unsat" if spec_slice(sp, c["size"]) is None else "-sat")))
             for k, v in c.get("kinds", {}).items():
                 if v: ctx.hit(f"cond:{k}")
-            oracle_file(ctx, {**pub, "headers": [list(h) for h in c["headers"]]}, content, sem, resp)
+            oracle_file(ctx, {**pub, "headers": [list(h) for h in c["headers"]]}, content, sem, resp, ns)
             if outs is not None:
                 ctx.compare({**pub, "headers": [[k, v[:80]] for k, v in c["headers"]]}, canon, outs[i], "FileResponse vs Aio.C15.fileResponse")
     finally:
         bed.close()
+
+
+# ------------------------------------------------------------------------------------ part 1a: the sendfile branch
+# `_sendfile` hands (offset, count) to loop.sendfile unless AIOHTTP_NOSENDFILE is set; an in-memory transport cannot take that
+# branch, so a small deterministic set is served over a real loopback TCP socket with sendfile enabled.
+def check_sendfile(ctx):
+    import aiohttp.web_fileresponse as wf
+    from aiohttp import web
+    big = 70_000
+    bed = FileBed([0, 6, big])
+    saved = wf.NOSENDFILE
+    calls = []
+    cases = []
+    for size in (0, 6, big):
+        rs = [None, "bytes=0-0", "bytes=-1", "bytes=1-", f"bytes={size - 1}-" if size else "bytes=0-", f"bytes=0-{size}", f"bytes={size}-", "bytes=2-4", "bytes=-3"]
+        if size == big:
+            rs += ["bytes=10000-60000", "bytes=-65537", "bytes=65535-65537", f"bytes={big - 2}-{big + 5}", f"bytes=1-{big - 2}"]
+        for rh in rs:
+            for method in ("GET", "HEAD") if rh in (None, "bytes=2-4") else ("GET",):
+                cases.append({"kind": "sendfile", "size": size, "half": 0, "cs": 262144, "method": method, "range": rh, "kinds": {}})
+    try:
+        wf.NOSENDFILE = False
+        metas = [finish_file_case(bed, c) for c in cases]
+        loop = asyncio.new_event_loop()
+        orig_sendfile = loop.sendfile
+
+        async def counting(transport, file, offset=0, count=None, *, fallback=True):
+            calls.append((offset, count))
+            return await orig_sendfile(transport, file, offset, count, fallback=fallback)
+        loop.sendfile = counting
+        fast = getattr(wf, "aiofastnet", None)
+        orig_fast = fast.sendfile if fast is not None else None
+        if fast is not None:
+            async def counting_fast(lp, transport, file, offset=0, count=None, *a, **kw):
+                calls.append((offset, count))
+                return await orig_fast(lp, transport, file, offset, count, *a, **kw)
+            fast.sendfile = counting_fast
+
+        async def main():
+            await bed.start()
+            site = web.TCPSite(bed.runner, "127.0.0.1", 0)
+            await site.start()
+            port = site._server.sockets[0].getsockname()[1]
+            out = []
+            try:
+                for c in cases:
+                    r, w = await asyncio.open_connection("127.0.0.1", port)
+                    w.write(build_request(c["method"], f"/f/{c['size']}/0/{c['cs']}", c["headers"]))
+                    data = await asyncio.wait_for(r.read(-1), 20)
+                    w.close()
+                    out.append(parse_response(data, head=c["method"] == "HEAD"))
+            finally:
+                await bed.stop()
+            return out
+        try:
+            asyncio.set_event_loop(loop)
+            resps = loop.run_until_complete(main())
+        finally:
+            asyncio.set_event_loop(None)
+            loop.close()
+    finally:
+        wf.NOSENDFILE = saved
+        if getattr(wf, "aiofastnet", None) is not None and 'orig_fast' in locals() and orig_fast is not None:
+            wf.aiofastnet.sendfile = orig_fast
+        bed.close()
+    if not calls:
+        raise MachineryError("blind-spot guard: loop.sendfile was never reached although AIOHTTP_NOSENDFILE was cleared")
+    lines = [file_model_line(c["cs"], c["method"], cur, ns, c["headers"], content) for c, (cur, ns, content, sem) in zip(cases, metas)]
+    outs = ctx.model(lines)
+    for i, (c, (cur, ns, content, sem), resp) in enumerate(zip(cases, metas, resps)):
+        pub = {k: c[k] for k in ("kind", "size", "half", "cs", "method", "range", "kinds")}
+        canon = canon_file_response(*resp)
+        ctx.case(("sendfile", pub), nontrivial=True, sample={"request": pub, "response": canon[:50]} if i % 23 == 2 else None)
+        ctx.hit("sendfile:status-%d" % resp[0])
+        sub = _Collect()
+        oracle_file(sub, {**pub, "headers": [list(h) for h in c["headers"]]}, content, sem, resp, ns)
+        for sig, detail in sub.v:
+            if not sig.endswith(("suffix-zero-served-206", "overlong-number-416")):
+                ctx.violation(sig.replace("C15/", "C15/sendfile/", 1), {**pub, "headers": [list(h) for h in c["headers"]]}, "over a real socket with loop.sendfile: " + detail[:300])
+        if outs is not None:
+            ctx.compare({**pub, "model": lines[i][:60]}, canon if len(canon) < 400 else canon[:60] + f"…{len(resp[2])}B:" + str(hash(resp[2])),
+                        outs[i] if len(outs[i]) < 400 else outs[i][:60] + f"…{len(unhx(outs[i].split(' ')[-1]))}B:" + str(hash(unhx(outs[i].split(' ')[-1]))),
+                        "FileResponse via loop.sendfile vs Aio.C15.fileResponse")
+    ctx.hit(*["sendfile:native-called"] * len(calls))
 
 
 # ------------------------------------------------------------------------------------ part 1b: the stat -> open window
@@ -713,7 +827,7 @@ class _Collect:
     def violation(self, sig, case, detail): self.v.append((sig, detail))
 
 
-def oracle_race(ctx, case, old, new, resp):
+def oracle_race(ctx, case, old, new, resp, old_ns=None, new_is_old=False):
     """the file changed between FileResponse's stat() and its open(): status, Content-Range, Content-Length and body must
     all describe ONE version of the file - the one whose bytes are served (a vanished file: 404)."""
     status, hdrs, body = resp
@@ -723,11 +837,12 @@ def oracle_race(ctx, case, old, new, resp):
         return
     sem = {"im": None, "um": None, "inm": None, "ms": None, "ir": None}
     problems = []
-    for name, content in (("the version open() found", new), ("the version stat() saw", old)):
+    new_ns = old_ns if new_is_old else T1 * 10**9
+    for name, content, mt in (("the version open() found", new, new_ns if old_ns is not None else None), ("the version stat() saw", old, old_ns)):
         if content is None:
             continue
         col = _Collect()
-        oracle_file(col, case, content, sem, resp)
+        oracle_file(col, case, content, sem, resp, mt)
         v = [x for x in col.v if not x[0].endswith(("suffix-zero-served-206", "overlong-number-416"))]
         if not v:
             return
@@ -823,11 +938,24 @@ def check_race(ctx):
             ctx.case(("race", c), nontrivial=True, sample={"request": c, "response": canon[:60]} if i % 211 == 3 else None)
             ctx.hit("race:" + c["mut"], "race:status-%d" % resp[0], "race:hook-fired" if fired else "race:hook-not-fired")
             if "ir" not in c:
-                oracle_race(ctx, c, old, new if fired else old, resp)
+                oracle_race(ctx, c, old, new if fired else old, resp, ns, not fired)
             if outs is not None:
                 ctx.compare(c, canon, outs[i], "FileResponse with the file changing between stat() and open() vs Aio.C15.fileResponseRace")
     finally:
         bed.close()
+
+
+_SENDFILE_ONLY = None
+
+
+class Ctx0:
+    """minimal stand-in used to re-run one section inside replay()"""
+    def __init__(self): self.violations = {}; self.quick = True
+    def model(self, lines): return None
+    def case(self, *a, **k): pass
+    def hit(self, *a): pass
+    def compare(self, *a, **k): return True
+    def violation(self, sig, case, detail): self.violations.setdefault(sig, {"case": case, "detail": detail})
 
 
 def dec(n):
@@ -1045,12 +1173,12 @@ class StaticBed:
         for runner, _ in self.runners.values():
             await runner.cleanup()
 
-    async def run(self, cfg, target, ae):
+    async def run(self, cfg, target, ae, method="GET", extra=()):
         target = target.replace("{B}", self.tree.B).replace("{B%2F}", self.tree.B.replace("/", "%2F"))
         runner, res = self.runners[cfg]
         rec = self.seen[cfg]; rec.clear()
-        out = await ask(runner, build_request("GET", target, [("Accept-Encoding", ae)] if ae is not None else []))
-        status, hdrs, body = parse_response(out)
+        out = await ask(runner, build_request(method, target, ([("Accept-Encoding", ae)] if ae is not None else []) + list(extra)))
+        status, hdrs, body = parse_response(out, head=method == "HEAD")
         return status, hdrs, body, dict(rec)
 
 
@@ -1343,6 +1471,107 @@ def check_static(ctx):
         tree.close()
 
 
+# ------------------------------------------------------------------------------------ part 2a: the static route end to end
+# Range / HEAD / Accept-Encoding through add_static (FileResponse built by the route, pre-compressed sibling chosen by it):
+# the entity is the file the route selected, and every Range / Content-Range / Content-Length / validator refers to THAT file.
+def check_static_ranges(ctx):
+    tree = Tree()
+    try:
+        bed = StaticBed(tree)
+        targets = ["a.txt", "sub/b.txt", "d1.txt", "p1.txt", "sub/deep/c.txt", "z.txt", "link_in", "emptydir"]
+        ranges = [None, "bytes=0-3", "bytes=-4", "bytes=5-", "bytes=2-2", "bytes=9999-", "bytes=0-99999", "bytes=x"]
+        cases = []
+        for cfg in ((False, False, "/static"), (True, True, "/")):
+            for t in targets:
+                for ae in (None, "gzip", "br", "gzip, br"):
+                    for rh in ranges:
+                        for method in ("GET", "HEAD"):
+                            cases.append({"kind": "static-range", "follow": cfg[0], "show_index": cfg[1], "prefix": cfg[2], "method": method,
+                                          "target": ("" if cfg[2] == "/" else cfg[2]) + "/" + t, "ae": ae, "range": rh,
+                                          "headers": [] if rh is None else [["Range", rh]]})
+
+        async def main():
+            await bed.start()
+            try:
+                return [await bed.run((c["follow"], c["show_index"], c["prefix"]), c["target"], c["ae"], c["method"], [tuple(h) for h in c["headers"]])
+                        for c in cases]
+            finally:
+                await bed.stop()
+        resps, excs, quiescent = vloop.run(main)
+        if resps is None:
+            raise MachineryError("static range bed did not finish")
+        # model, stage 1: which file does the route select
+        lines1 = []
+        for c, (status, hdrs, body, rec) in zip(cases, resps):
+            pfx = "" if c["prefix"] == "/" else c["prefix"]
+            lines1.append("get %s %s %s %s %s %s %s" % (b01(c["follow"]), b01(c["show_index"]), st(pfx), tree.path_col(tree.root),
+                                                       st(rec.get("path_safe", c["target"])), st(c["ae"] or ""), tree.fs_col))
+        outs1 = ctx.model(lines1)
+        byid = {v: k for k, v in tree.ids.items()}
+        lines2, idx2 = [], []
+        if outs1 is not None:
+            for i, (c, o) in enumerate(zip(cases, outs1)):
+                if o.startswith("file "):
+                    _, pcol, fid, enc = o.split(" ")
+                    real = os.path.join(tree.B, byid[int(fid)])
+                    with open(real, "rb") as f:
+                        content = f.read()
+                    sst = os.stat(real)
+                    # stage 2: FileResponse on that file (cur = its entity tag)
+                    lines2.append(file_model_line(262144, c["method"], "%x-%x" % (sst.st_mtime_ns, sst.st_size), sst.st_mtime_ns,
+                                                  [tuple(h) for h in c["headers"]], content))
+                    idx2.append(i)
+        outs2 = ctx.model(lines2) if lines2 else []
+        m2 = dict(zip(idx2, outs2 or []))
+        gets = {}
+        for i, (c, (status, hdrs, body, rec)) in enumerate(zip(cases, resps)):
+            key = (c["follow"], c["prefix"], c["target"], c["ae"], c["range"])
+            ctx.case(("static-range", c), nontrivial=True, sample={"request": c, "status": status} if i % 301 == 5 else None)
+            ctx.hit("static-range:status-%d" % status + ("-enc" if hdrs.get("content-encoding") else ""))
+            # HEAD must announce what GET delivers
+            if c["method"] == "GET":
+                gets[key] = (status, hdrs)
+            elif key in gets:
+                gs, gh = gets[key]
+                same = ("content-length", "content-range", "content-encoding", "etag", "last-modified")
+                if gs != status or any(gh.get(h) != hdrs.get(h) for h in same if not (h == "content-length" and status not in (200, 206))):
+                    ctx.violation("C15/consistency/head-differs-from-get", c, f"HEAD answered {status} "
+                                  f"{ {h: hdrs.get(h) for h in same} }, GET {gs} { {h: gh.get(h) for h in same} }")
+            # direct oracle on the entity the route must have selected
+            exp = expected_plain(tree, {**c, "kind": "static"})
+            if exp is not None:
+                own, sibs = exp
+                enc = hdrs.get("content-encoding")
+                if status in (200, 206, 416) and (enc is None or enc in sibs):
+                    rel = c["target"][len("" if c["prefix"] == "/" else c["prefix"]) + 1:]
+                    # a 416 carries no Content-Encoding: it may describe the file itself or an accepted regular sibling
+                    cands = [(enc, sibs[enc] if enc else own)] + ([(k, v) for k, v in sibs.items()] if status == 416 and enc is None else [])
+                    worst = None
+                    for e, content in cands:
+                        real = os.path.join(tree.root, rel) + ({"gzip": ".gz", "br": ".br"}[e] if e else "")
+                        sub = _Collect()
+                        oracle_file(sub, c, content, {"im": None, "um": None, "inm": None, "ms": None, "ir": None},
+                                    (status, hdrs, body), os.stat(real).st_mtime_ns)
+                        if not sub.v:
+                            worst = None
+                            break
+                        worst = worst or sub.v
+                    for sig, detail in (worst or []):
+                        ctx.violation(sig.replace("C15/", "C15/static/", 1), c, "through the static route: " + detail)
+                elif status in (200, 206):
+                    ctx.violation("C15/content/non-regular-sibling-served", c, f"Content-Encoding {enc!r} but no regular sibling of that coding exists")
+                else:
+                    ctx.violation("C15/content/regular-file-not-served", c, f"plain regular file answered {status}")
+            if outs1 is not None:
+                canon = canon_file_response(status, hdrs, body) if i in m2 else str(status)
+                model = m2[i] if i in m2 else {"404": "404", "403": "403", "500": "500", "nomatch": "404"}.get(outs1[i].split(" ")[0], outs1[i].split(" ")[0])
+                if outs1[i].startswith("listing"):
+                    model = "200"
+                ctx.compare(c, canon, model, "add_static + Range/HEAD/Accept-Encoding vs Aio.C15.serve then Aio.C15.fileResponse")
+    finally:
+        tree.close()
+
+
 # ------------------------------------------------------------------------------------ part 2b: file-system histories
 # One app / one StaticResource serves several requests while the tree changes in between: whatever the route remembers from an
 # earlier request must not decide a later one.  Step = ["get", rel, ae] | ["mut", op, rel, arg].
@@ -1536,8 +1765,10 @@ def check(ctx):
     check_http_range(ctx)
     check_strings(ctx)
     check_files(ctx)
+    check_sendfile(ctx)
     check_race(ctx)
     check_static(ctx)
+    check_static_ranges(ctx)
     check_histories(ctx)
     ctx.exhaustive = not ctx.quick
     if not ctx.quick:
@@ -1563,9 +1794,26 @@ def replay(ctx, case):
             if resp is None:
                 raise MachineryError("replay did not finish")
             pub = {k: c[k] for k in ("kind", "size", "half", "cs", "method", "range", "kinds")}
-            oracle_file(ctx, {**pub, "headers": [list(h) for h in c["headers"]]}, content, sem, resp)
+            oracle_file(ctx, {**pub, "headers": [list(h) for h in c["headers"]]}, content, sem, resp, ns)
         finally:
             bed.close()
+    elif kind == "static-range":
+        sub = Ctx0()
+        check_static_ranges(sub)
+        for sig, v in sub.violations.items():
+            if all(v["case"].get(k) == case.get(k) for k in ("follow", "prefix", "target", "ae", "range", "method")):
+                ctx.violation(sig, v["case"], v["detail"])
+    elif kind == "sendfile":
+        sub = Ctx0()
+        global _SENDFILE_ONLY
+        _SENDFILE_ONLY = (case["size"], case["method"], case["range"])
+        try:
+            check_sendfile(sub)
+        finally:
+            _SENDFILE_ONLY = None
+        for sig, v in sub.violations.items():
+            if v["case"].get("size") == case["size"] and v["case"].get("range") == case["range"] and v["case"].get("method") == case["method"]:
+                ctx.violation(sig, v["case"], v["detail"])
     elif kind == "race":
         bed = FileBed([case["size"]])
         try:
@@ -1579,8 +1827,8 @@ def replay(ctx, case):
             if r is None:
                 raise MachineryError("replay did not finish")
             resp, fired, new = r
-            old = bed.files[(case["size"], 0)][1]
-            oracle_race(ctx, case, old, new if fired else old, resp)
+            old, old_ns = bed.files[(case["size"], 0)][1], bed.files[(case["size"], 0)][2]
+            oracle_race(ctx, case, old, new if fired else old, resp, old_ns, not fired)
         finally:
             bed.close()
     elif kind == "history":
